@@ -713,6 +713,10 @@ func (s *Scheme) initializeThresholdSigning(membership *membership, parties []Pa
 }
 
 func (s *Scheme) setup() {
+	// HandleMessage may already be dispatching while the first KeyGen or Sign call gets here
+	s.lock.Lock()
+	defer s.lock.Unlock()
+
 	s.syncsInProgress = make(map[string]func(uint16, []byte))
 	s.rbcInProgress = make(map[string]func(m RBCMessage, from uint16))
 	s.messageClassifiers = make(map[string]func([]byte) (uint8, bool, error))
